@@ -1,16 +1,10 @@
 (** C10 obligation (deviation spelled out): Integer keeps a Python bool as it is; it is written as 1 / 0 (repair fixes/C11-2), which reads
     back as the int 1 / 0 -- the same number in Python (True == 1), not the same object. *)
-From OfxV Require Import Base.Prelude Base.Digits Gen.ScalarsGen Model.PyDecimal Model.Scalars Model.ScalarsLex Proofs.ScalarsText Proofs.PyDecimalProofs Proofs.ScalarsProofs Proofs.ScalarsLexProofs.
+From OfxV Require Import Base.Prelude Base.Digits Gen.ScalarsGen Model.PyDecimal Model.Scalars Model.ScalarsLex Proofs.ScalarsText Proofs.PyDecimalProofs Proofs.ScalarsProofs Proofs.ScalarsLexProofs Proofs.ScalarsThms.
 Local Open Scope N_scope.
 Theorem Integer_bool_reads_back_as_int : forall e l b s w,
   elem_sty e = TInteger l -> unconvert e (PBool b) = OK (Some s, w) ->
   convert e (PBool b) = OK (PBool b, false) /\ convert e (PStr s) = OK (PInt (Z_of_bool b), false)
   /\ (s = [49] /\ b = true \/ s = [48] /\ b = false).
-Proof.
-  intros e l b s w Ht Hu. rewrite !convert_elem. rewrite unconvert_elem in Hu. rewrite Ht in *. cbn [unconvert_sty convert_sty] in *.
-  destruct (unconvert_integer l (elem_required e) (PBool b)) as [o|] eqn:E; cbn [nowarn rmap] in Hu; [|discriminate]. injection Hu as -> _.
-  destruct (integer_bool_reads_back l _ b s E) as [H1 H2]. rewrite H1, H2. repeat split.
-  cbn [unconvert_integer] in E. destruct (enforce_length_int l (Z_of_bool b)) as [[]|]; cbn [bind] in E; [|discriminate].
-  destruct b; vm_compute in E; injection E as <-; auto.
-Qed.
+Proof. exact Integer_bool_reads_back_as_int_l. Qed.
 Print Assumptions Integer_bool_reads_back_as_int.
